@@ -302,6 +302,35 @@ func (e *Exec) intrinsic(fn *ssa.Function, args []Value) (ret Value, ok bool) {
 	case "(*sync.Mutex).Unlock", "(*sync.RWMutex).Unlock", "(*sync.RWMutex).RUnlock":
 		e.lockOp(args[0], false, name)
 		return nil, true
+	// sync.Pool: Put pushes on a per-pool ghost stack; Get nondeterministically pops the most recent
+	// item or builds a fresh one with New (both are legal behaviours of the real pool, which may
+	// drop items at any time) - so state left in a recycled object is visible to the next user
+	case "(*sync.Pool).Put":
+		p, ok := args[0].(*Pointer)
+		if !ok || p.C == nil {
+			e.unsupported("sync.Pool.Put on %T", args[0])
+		}
+		if e.pools == nil {
+			e.pools = map[*Cell][]Value{}
+		}
+		e.pools[p.C] = append(e.pools[p.C], args[1])
+		return nil, true
+	case "(*sync.Pool).Get":
+		p, ok := args[0].(*Pointer)
+		if !ok || p.C == nil || len(p.C.Sub) < 6 {
+			e.unsupported("sync.Pool.Get on %T", args[0])
+		}
+		if items := e.pools[p.C]; len(items) > 0 {
+			if e.choose(2, nil) == 0 {
+				it := items[len(items)-1]
+				e.pools[p.C] = items[:len(items)-1]
+				return it, true
+			}
+		}
+		if c, ok := e.load(p.C.Sub[5]).(*Closure); ok && c != nil && c.Fn != nil {
+			return e.callClosure(c, nil), true
+		}
+		return &Iface{}, true
 	}
 	if r, ok := e.intrinsicBig(name, fn, args); ok {
 		return r, true
